@@ -424,6 +424,7 @@ func TestC08_SimBinding(t *testing.T) {
 		var mlog []string
 		dump := func() any { return map[string]any{"history": a.Log, "mutants": mlog} }
 		kinds := map[string]bool{}
+		shapes := map[string]bool{} // (order, #txs, #etxs) of the blocks examined in depth
 		nField, nBody, byChance := 0, 0, 0
 		for bi, b := range a.Blocks {
 			if err := f.SetHeads(b.Parents); err != nil {
@@ -442,6 +443,15 @@ func TestC08_SimBinding(t *testing.T) {
 			// always: prelude block 7 (zone order, carries transactions) and 8 (prime order: prime,
 			// region and zone views); of the generated blocks a drawn half
 			inDepth := bi == 7 || bi == 8 || (bi >= len(a.Blocks)-steps && rapid.IntRange(0, 1).Draw(t, "mutateHere") == 0)
+			if inDepth {
+				capn := func(n, m int) int {
+					if n > m {
+						return m
+					}
+					return n
+				}
+				shapes[fmt.Sprintf("o%d/t%d/e%d", b.Order, capn(len(b.Zone().Transactions()), 3), capn(len(b.Zone().OutboundEtxs()), 2))] = true
+			}
 			if inDepth && os.Getenv("C08_DEBUG_NOMUT") == "" {
 				// (i) single-field changes of the sealed header, old seal kept
 				top := b.Views[b.Order]
@@ -583,7 +593,12 @@ func TestC08_SimBinding(t *testing.T) {
 				bodyKinds = append(bodyKinds, k)
 			}
 		}
-		stats.Case(part, fmt.Sprintf("fields=%d|%s", len(kl)-len(bodyKinds), strings.Join(bodyKinds, ",")), nBody > 0 && nField > 0)
+		var sl []string
+		for k := range shapes {
+			sl = append(sl, k)
+		}
+		sort.Strings(sl)
+		stats.Case(part, fmt.Sprintf("fields=%d|%s|%s", len(kl)-len(bodyKinds), strings.Join(sl, ","), strings.Join(bodyKinds, ",")), nBody > 0 && nField > 0)
 		if stats.WantSample(part) {
 			stats.Sample(part, map[string]any{"blocks": len(a.Blocks), "field_mutants_offered": nField, "body_mutants_offered": nBody, "sealed_by_chance": byChance, "log": tailStr(mlog, 16)})
 		}
